@@ -4,8 +4,8 @@
    followed by the Finalize commit).  Crash safety of the in-place rewrite is C02's, not stated here.
 
    store_inv st : frame ids are distinct; every ACTIVE frame's window is empty or lies inside
-     [data start, data_end] and ends at or before cached_payload_end; data_end and
-     cached_payload_end are inside the file.  Windows may overlap or be shared in any way.
+     [data start, data_end]; data_end is inside the file.  Windows may overlap or be shared in any way
+     (payload-reusing frames share their source's window).
    share_or_disjoint st : non-empty active windows are pairwise identical or disjoint (what open accepts:
      payload-reusing frames share their source's window).   all_disjoint st : pairwise disjoint.
    kept st st' f f' : f' has the id, status, role, metadata tag and index-text flag of f; if f is active,
@@ -23,53 +23,40 @@ Theorem C42_rewrite_preserves_content :
     Forall2 (kept st st1) (vs_frames st) (vs_frames st1) /\
     vs_frames st1 = relocate (vs_frames st) (vs_start st) /\
     vs_data_end st1 = vs_start st + active_bytes (vs_frames st) /\
-    vs_start st1 = vs_start st /\ vs_cpe st1 = vs_cpe st /\ vs_footer st1 = vs_footer st /\
+    vs_start st1 = vs_start st /\ vs_cpe st1 = vs_data_end st1 /\ vs_footer st1 = vs_footer st /\
     vs_lex st1 = vs_lex st /\ vs_vec st1 = vs_vec st /\ vs_pending st1 = vs_pending st /\
     vs_data_end st1 <= file_len st1 /\ file_len st <= file_len st1.
 Proof. exact rewrite_correct. Qed.
 Print Assumptions C42_rewrite_preserves_content.
 
-(* (2) The property as stated -- vacuum INCLUDING its index rebuild keeps every frame -- is REFUTED:
-       a state the implementation accepts (frame 0 superseded by two payload-less updates, frames 1 and 2
-       active and sharing its window) on which an active frame reads other bytes afterwards and fails
-       validate_frame_bounds.  vacuum writes one copy per sharing frame, the copies end beyond
-       cached_payload_end, and rebuild_indexes starts the index image at cached_payload_end. *)
-Theorem C42_vacuum_preserves_content_refuted :
-  exists st ix st', store_inv st /\ share_or_disjoint st /\ known_overflow st = true /\
-    vacuum st ix = Ok st' /\
-    exists i f f', nth_error (vs_frames st) i = Some f /\ nth_error (vs_frames st') i = Some f' /\
-                   vf_active f = true /\ frame_bytes st' f' <> frame_bytes st f /\ validate st' f' <> Ok tt.
-Proof. exact vacuum_refuted. Qed.
-Print Assumptions C42_vacuum_preserves_content_refuted.
-
-(* (3) Outside that class (known_overflow st = false: data start + active payload bytes <=
-       cached_payload_end) vacuum succeeds, every frame is kept (content, id, metadata, status; inactive
-       frames get (0,0) and stay inactive), for ANY index image, and the invariant holds again. *)
-Theorem C42_vacuum_preserves_content_outside_known :
-  forall st ix, store_inv st -> known_overflow st = false ->
+(* (2) The property: vacuum INCLUDING its index rebuild (any index image), for EVERY state meeting the
+       invariant, with no side condition: vacuum succeeds, every frame is kept (content, id, metadata,
+       status; inactive frames get (0,0) and stay inactive), cached_payload_end = data start + active
+       bytes (so later appends and the index image start after the last payload), no log record is left
+       pending, and the invariant holds again.  (Before fix f791181 this failed for tables with shared
+       windows: Proofs/VacuumProofs.v historical_stale_cpe_refutation, finding F-C42-1, now fixed.) *)
+Theorem C42_vacuum_preserves_content :
+  forall st ix, store_inv st ->
   exists st', vacuum st ix = Ok st' /\
     Forall2 (kept st st') (vs_frames st) (vs_frames st') /\
     vs_frames st' = relocate (vs_frames st) (vs_start st) /\
-    vs_start st' = vs_start st /\ vs_cpe st' = vs_cpe st /\ vs_footer st <= vs_footer st' /\
+    vs_start st' = vs_start st /\
+    vs_cpe st' = vs_start st + active_bytes (vs_frames st) /\
+    vs_data_end st' <= vs_cpe st' /\
+    vs_footer st <= vs_footer st' /\
+    vs_pending st' = 0 /\
     store_inv st'.
 Proof. exact vacuum_correct. Qed.
-Print Assumptions C42_vacuum_preserves_content_outside_known.
+Print Assumptions C42_vacuum_preserves_content.
 
-(* (4) The class is narrow: without window sharing it is empty (pairwise disjoint windows below
-       cached_payload_end have total length <= cached_payload_end - data start). *)
-Theorem C42_no_sharing_never_overflows :
-  forall st, store_inv st -> all_disjoint st -> known_overflow st = false.
-Proof. exact disjoint_fits. Qed.
-Print Assumptions C42_no_sharing_never_overflows.
-
-(* (5) Layout: row i of the new table is the old row with window (data start + lengths of the active
+(* (3) Layout: row i of the new table is the old row with window (data start + lengths of the active
        frames before it, old length) if active -- a zero-length active frame (chunked parent) gets the
        running end and length 0 -- and (0, 0) if inactive.  Non-empty active windows are pairwise
-       disjoint afterwards (frames that shared a window each get their own copy: the bytes ARE
-       duplicated), lie in [data start, data start + active bytes], which is below cached_payload_end:
-       the payload region does not grow. *)
+       disjoint afterwards and lie in [data start, cached_payload_end']: two active frames that shared one
+       window before each get their own copy (the bytes ARE duplicated; harmless now that the index
+       image starts after the last copy). *)
 Theorem C42_layout_contiguous :
-  forall st ix, store_inv st -> known_overflow st = false ->
+  forall st ix, store_inv st ->
   exists st', vacuum st ix = Ok st' /\
     (forall i f, nth_error (vs_frames st) i = Some f ->
        nth_error (vs_frames st') i =
@@ -78,16 +65,25 @@ Theorem C42_layout_contiguous :
                else set_window f 0 0)) /\
     pairwise win_disjoint (live (vs_frames st')) /\
     (forall f', In f' (live (vs_frames st')) ->
-       vs_start st <= vf_off f' /\ vf_off f' + vf_len f' <= vs_start st + active_bytes (vs_frames st)) /\
-    vs_start st + active_bytes (vs_frames st) <= vs_cpe st.
+       vs_start st <= vf_off f' /\ vf_off f' + vf_len f' <= vs_cpe st') /\
+    vs_cpe st' = vs_start st + active_bytes (vs_frames st).
 Proof. exact vacuum_layout. Qed.
 Print Assumptions C42_layout_contiguous.
 
-(* (6) What search, timeline and the index rebuild read of the table (id, status, role, metadata tag,
+(* (4) Without window sharing (pairwise disjoint active windows) the payload region does not grow: the
+       payloads end at or before any bound all old windows respected. *)
+Theorem C42_payload_region_does_not_grow :
+  forall st ix E, store_inv st -> all_disjoint st -> vs_start st <= E ->
+  (forall f, In f (live (vs_frames st)) -> vf_off f + vf_len f <= E) ->
+  exists st', vacuum st ix = Ok st' /\ vs_cpe st' <= E.
+Proof. exact vacuum_no_growth. Qed.
+Print Assumptions C42_payload_region_does_not_grow.
+
+(* (5) What search, timeline and the index rebuild read of the table (id, status, role, metadata tag,
        index-text flag) is unchanged, so the rebuilt Tantivy document set (active frames with text), the
        time index (active Document frames) and ANY other function of that view are the same. *)
 Theorem C42_views_unchanged :
-  forall st ix, store_inv st -> known_overflow st = false ->
+  forall st ix, store_inv st ->
   exists st', vacuum st ix = Ok st' /\
     table_view (vs_frames st') = table_view (vs_frames st) /\
     lex_docs (vs_frames st') = lex_docs (vs_frames st) /\
@@ -97,27 +93,23 @@ Theorem C42_views_unchanged :
 Proof. exact vacuum_views. Qed.
 Print Assumptions C42_views_unchanged.
 
-(* (7) "Verifies as Passed" right after vacuum() is REFUTED on every lex-enabled memory: the index
-       rebuild appends one lex batch record to the log and vacuum records no checkpoint, so verify's
-       WalPendingRecords check fails until the next commit / reopen. *)
-Theorem C42_verify_after_vacuum_refuted :
-  forall st ix st', vs_lex st = true -> vacuum st ix = Ok st' -> verify_passed st' = false.
-Proof. exact vacuum_verify_lex. Qed.
-Print Assumptions C42_verify_after_vacuum_refuted.
+(* (6) "Verifies as Passed": no log record is pending after vacuum() (the lex batch record appended by the
+       index rebuild is checkpointed since fix 4c0da7f; before it verify failed with one pending record:
+       Proofs/VacuumProofs.v historical_verify_failed_before_4c0da7f, finding F-C42-2, now fixed), nor
+       after doctor's vacuum.  verify's remaining checks decode the index images (oracles). *)
+Theorem C42_verify_after_vacuum :
+  forall st ix st', vacuum st ix = Ok st' -> verify_passed st' = true.
+Proof. exact vacuum_verify. Qed.
+Print Assumptions C42_verify_after_vacuum.
 
-Theorem C42_verify_after_vacuum_outside_known :
-  forall st ix st', vs_lex st = false -> vacuum st ix = Ok st' -> verify_passed st' = true.
-Proof. exact vacuum_verify_nolex. Qed.
-Print Assumptions C42_verify_after_vacuum_outside_known.
-
-(* through doctor the Finalize commit checkpoints the log: no pending record is left *)
 Theorem C42_verify_after_doctor_vacuum :
   forall st ix again st', doctor_vacuum st ix again = Ok st' -> verify_passed st' = true.
 Proof. exact doctor_verify. Qed.
 Print Assumptions C42_verify_after_doctor_vacuum.
 
-(* (8) vacuum never gives space back: the footer offset (where the TOC is written) does not decrease,
-       because the index image is rewritten at the OLD cached_payload_end and footer_offset is a max. *)
+(* (7) Observation, not part of the property: vacuum never gives FILE space back -- the footer offset
+       (where the TOC is written) does not decrease (footer_offset is a max of the old value and the end of
+       the new index image), so "compacts" is a statement about the payload region ((3), (4)) only. *)
 Theorem C42_file_never_shrinks :
   forall st ix st', vacuum st ix = Ok st' -> vs_footer st <= vs_footer st'.
 Proof. exact vacuum_footer. Qed.
@@ -131,19 +123,16 @@ Definition ex_frames : list vframe :=
    mkVF 3 1 108 2 0 23 false; mkVF 4 0 108 2 1 24 false].
 Definition ex : vstate := mkVS 100 ex_frames [1; 1; 1; 1; 1; 2; 3; 4; 5; 6; 60; 61] 110 110 110 true true 3.
 
-Example C42_nonvacuous_inv : store_inv ex /\ all_disjoint ex /\ share_or_disjoint ex /\ known_overflow ex = false.
+Example C42_nonvacuous_inv : store_inv ex /\ all_disjoint ex /\ share_or_disjoint ex.
 Proof.
-  split; [|split; [|split]].
+  split; [|split].
   - constructor; cbn [ex vs_frames vs_data_end vs_cpe vs_start ex_frames map vf_id].
     + repeat constructor; cbn; intuition discriminate.
     + intros f [<-|[<-|[<-|[<-|[<-|[]]]]]] Ha; try discriminate Ha;
         first [left; reflexivity | right; unfold MAX_FRAME_BYTES; cbn; lia].
     + unfold file_len; cbn; lia.
-    + lia.
-    + unfold file_len; cbn; lia.
   - unfold all_disjoint. cbn. split; [|split; [|exact I]]; [intros y [<-|[]]; left; cbn; lia | intros y []].
   - unfold share_or_disjoint. cbn. split; [|split; [|exact I]]; [intros y [<-|[]]; right; left; cbn; lia | intros y []].
-  - reflexivity.
 Qed.
 
 Example C42_nonvacuous_run :
@@ -151,5 +140,15 @@ Example C42_nonvacuous_run :
     map (fun f => (vf_id f, vf_status f, vf_off f, vf_len f)) (vs_frames st') =
       [(0, 2, 0, 0); (1, 0, 100, 3); (2, 0, 103, 0); (3, 1, 0, 0); (4, 0, 103, 2)] /\
     map (frame_bytes st') (vs_frames st') = [[]; [2; 3; 4]; []; []; [5; 6]] /\
-    vs_data_end st' = 110 /\ vs_pending st' = 1 /\ verify_passed st' = false.
+    vs_data_end st' = 105 /\ vs_cpe st' = 105 /\ vs_pending st' = 0 /\ verify_passed st' = true.
 Proof. eexists. split; [vm_compute; reflexivity|]. vm_compute. repeat split; reflexivity. Qed.
+
+(* the former F-C42-1 witness (frames 1 and 2 share superseded frame 0's window): each gets its own copy,
+   both read the shared bytes, and the index image starts after the second copy *)
+Example C42_shared_window_regression :
+  store_inv wit /\ share_or_disjoint wit /\
+  exists st', vacuum wit wit_ix = Ok st' /\
+    map (fun f => (vf_id f, vf_off f, vf_len f)) (vs_frames st') = [(0, 0, 0); (1, 100, 4); (2, 104, 4)] /\
+    map (frame_bytes st') (vs_frames st') = [[]; [1; 2; 3; 4]; [1; 2; 3; 4]] /\
+    vs_cpe st' = 108 /\ vs_data_end st' = 108.
+Proof. split; [exact wit_inv|]. split; [exact wit_share|]. exact wit_fixed. Qed.
